@@ -1244,7 +1244,7 @@ int safec_vsnprintf_s(out_fct_type out, const char *funcname, char *buffer,
 #endif // PRINTF_SUPPORT_FLOAT
         case 'c': {
             unsigned int l = 1U;
-            char wstr[5];
+            char wstr[MB_LEN_MAX + 1]; /* wctomb may store MB_CUR_MAX bytes */
             if (flags & FLAGS_LONG) {
 #ifndef SAFECLIB_DISABLE_WCHAR
                 int len = wctomb(wstr, va_arg(va, int));
